@@ -214,6 +214,15 @@ PROPS["C12"] = {
     "harnesses": [H("nfs.VerifC12Zero", covers=("ok", "freed", "tail", "err"), q=dict(STEPQ, inums=1, zeroalloc=1, sizeblocks=0, pendingshrink=1, sizes=1), t=dict(STEPT, zeroalloc=1, sizeblocks=0, sizes=2, inums=2), lmax=3, budget_s=400, budget_s_t=2400)],
 }
 
+PROPS["C19"] = {
+    "level": "model_checking",
+    "explanation": "the values announced by PATHCONF/FSINFO are taken from the replies and the guards of CREATE/MKDIR/SYMLINK (name lengths name_max-1, name_max, name_max+1, 255), SETATTR and WRITE (sizes/offsets around maxfilesize and up to 2^64-1) are executed symbolically from an arbitrary valid state: at or below the limit the request is accepted (unless the allocator is exhausted) and reads back, above it is refused with no journal append",
+    "assumptions": JOURNAL + ["pre-state satisfies Inv", "representative inode/block numbers (bound R_addr)"],
+    "outside": ["whether a write of nearly wtmax bytes fits the journal (known finding K03 covers count = wtmax)", "RENAME target names (same AddName guard as CREATE)"],
+    "harnesses": [H("nfs.VerifC19Limits", covers=("name-ok", "name-refused", "size-ok", "size-refused", "write-ok", "write-refused", "wtmax"),
+                    q=dict(STEPQ, inums=1, namecmp=1), t=dict(STEPT, namecmp=1), lmax=2, budget_s=400, budget_s_t=2400)],
+}
+
 PROPS["C14"] = {
     "level": "other",
     "monitor_harnesses": ["VerifStep", "VerifC14Background"],
